@@ -1,6 +1,6 @@
 use vstd::prelude::*;
 verus! {
-#[derive(Clone, Copy, PartialEq, Eq)]
+#[derive(Clone, Copy, PartialEq, Eq, Structural)]
 pub struct AsNumber(pub u32);
 impl AsNumber { pub const AS0: Self = AsNumber(0); }
 
@@ -52,6 +52,7 @@ impl<P: RoutePrefix> V<P> {
                 forall |i: int| 0 <= i < it.index@ ==> !matches(covering@[i], origin),
         {
             let roa = *roa;
+            assert(roa == covering@[it.index@]);
             if roa.origin() == origin.origin {
                 if roa.prefix.covers(origin.prefix)
                     && roa.effective_max_len() >= origin.prefix.addr_len()
